@@ -26,7 +26,7 @@ def gen_side(rng, times, keys, rich):
             if rich:
                 r = rng.random()
                 hs = rng.choice([0, 2, 4, 8, 2 | 4, 2 | 8, 14, 1, 3]) if r < 0.7 else 0
-                f = rng.choice(["", "", "hit.wav", "clap.ogg", "hit.wav", "kick.wav"]) if (hs & 14) == 0 or rng.random() < 0.15 else ""
+                f = rng.choice(["", "", "hit.wav", "clap.ogg", "hit.wav", "kick.wav", "LR3_FX Bz4.wav", "soft hit 2.wav"]) if (hs & 14) == 0 or rng.random() < 0.15 else ""
                 x = [hs, rng.randrange(4), rng.randrange(4), rng.randrange(3), rng.choice([0, 20, 20, 30, 70]), f]
             else:
                 x = [0, 0, 0, 0, 0, ""]
@@ -62,7 +62,7 @@ def gen(rng, tier, k):
         t = rng.choice(ts)
         for c in range(min(keys, rng.randint(2, 4))):
             sh.append([t, c])
-            shx.append([0, 0, 0, 0, rng.choice([20, 30]), rng.choice(["a.wav", "b.wav", "a.wav", "c.wav"])])
+            shx.append([0, 0, 0, 0, rng.choice([20, 30]), rng.choice(["a.wav", "b.wav", "a.wav", "c.wav", "a b.wav"])])
     def chart(h, l, hx, lx, samples):
         return dict(keys=keys, hits=h, holds=l, hit_x=hx, hold_x=lx, bpms=[[min([0.0] + [x[0] for x in h + l]), 120.0, 4]], bpm_x=[[0, 0, 50, False]],
                     svs=[], sv_x=[], samples=samples, meta=dict(circle_size=float(keys)))
